@@ -3141,6 +3141,122 @@ def inline_expression_helpers(tree, modname, table=None):
   return count
 
 
+def callee_signatures(tree):
+  """Simple name -> parameter names, for the module's own functions, methods (without self) and classes (constructor / NamedTuple fields).
+  Names defined more than once with different parameter lists are left out."""
+  sigs, clash = {}, set()
+
+  def add(name, params):
+    if name in sigs and sigs[name] != params:
+      clash.add(name)
+    sigs[name] = params
+
+  def params_of(fn, drop_self):
+    a = fn.args
+    if a.posonlyargs or a.vararg:
+      return None
+    ps = [x.arg for x in a.args]
+    return ps[1:] if drop_self and ps else ps
+  for st in tree.body:
+    if isinstance(st, ast.FunctionDef):
+      ps = params_of(st, False)
+      if ps is not None:
+        add(st.name, ps)
+    elif isinstance(st, ast.ClassDef):
+      init = [m for m in st.body if isinstance(m, ast.FunctionDef) and m.name == '__init__']
+      if init:
+        ps = params_of(init[0], True)
+        if ps is not None:
+          add(st.name, ps)
+      elif any('NamedTuple' in ast.unparse(b) for b in st.bases):
+        add(st.name, [x.target.id for x in st.body if isinstance(x, ast.AnnAssign) and isinstance(x.target, ast.Name)])
+      for m in st.body:
+        if isinstance(m, ast.FunctionDef) and not m.name.startswith('__'):
+          static = any(ast.unparse(d) == 'staticmethod' for d in m.decorator_list)
+          if any(ast.unparse(d) == 'property' for d in m.decorator_list):
+            continue
+          ps = params_of(m, not static)
+          if ps is not None:
+            add('.' + m.name, ps)
+  for c in clash:
+    sigs.pop(c, None)
+  return sigs
+
+
+def bind_call(call, sigs):
+  """(callee key, params, {param: expr}, {param: 'pos'|'kw'}) for a call of one of the module's own callables, else None."""
+  f = call.func
+  if isinstance(f, ast.Name):
+    key = f.id
+  elif isinstance(f, ast.Attribute) and isinstance(f.value, ast.Name) and f.value.id in ('self', 'cls'):
+    key = '.' + f.attr
+  else:
+    return None
+  params = sigs.get(key)
+  if params is None or any(isinstance(a, ast.Starred) for a in call.args) or any(k.arg is None for k in call.keywords) or len(call.args) > len(params):
+    return None
+  bound, how = {}, {}
+  for p_, a in zip(params, call.args):
+    bound[p_] = a
+    how[p_] = 'pos'
+  for k in call.keywords:
+    if k.arg not in params or k.arg in bound:
+      return None
+    bound[k.arg] = k.value
+    how[k.arg] = 'kw'
+  return key, params, bound, how
+
+
+def _load_calls():
+  p = os.path.join(os.path.dirname(os.path.abspath(__file__)), 'canon_calls.json')
+  try:
+    with open(p) as f:
+      return json.load(f)
+  except (OSError, ValueError):
+    return None
+
+
+def call_spelling(tree, modname):
+  """Arguments of calls to the module's own functions are written the way the reference tree writes them (positionally or by
+  keyword, per callee and parameter), when that keeps the order in which the argument expressions are evaluated."""
+  table = _load_calls()
+  if table is None:
+    return 0
+  ref = table.get(modname) or {}
+  sigs = callee_signatures(tree)
+  count = 0
+  for n in ast.walk(tree):
+    if not isinstance(n, ast.Call):
+      continue
+    b = bind_call(n, sigs)
+    if b is None:
+      continue
+    key, params, bound, how = b
+    want = ref.get(key)
+    if not want:
+      continue
+    target = {p_: want.get(p_, how[p_]) for p_ in bound}
+    # positional arguments must be a gap-free prefix of the parameter list
+    cut = 0
+    for i, p_ in enumerate(params):
+      if p_ in bound and target[p_] == 'pos' and all(q in bound for q in params[:i]):
+        cut = i + 1
+    new_args = [bound[p_] for p_ in params[:cut]]
+    rest = [p_ for p_ in params[cut:] if p_ in bound]
+    # keywords keep their written order
+    written = [k.arg for k in n.keywords if k.arg in rest] + [p_ for p_ in rest if how[p_] == 'pos']
+    new_kw = [ast.keyword(arg=p_, value=bound[p_]) for p_ in written]
+    old_order = [id(a) for a in n.args] + [id(k.value) for k in n.keywords]
+    new_order = [id(a) for a in new_args] + [id(k.value) for k in new_kw]
+    if new_order == old_order and len(new_args) == len(n.args):
+      continue
+    if new_order != old_order and not all(_pure(bound[p_]) or isinstance(bound[p_], (ast.Name, ast.Constant)) for p_ in bound):
+      continue
+    n.args, n.keywords = new_args, new_kw
+    count += 1
+  return count
+
+
 def lifted_candidates(tree, modname, table=None):
   """Names of new module-level functions that look like a reference closure that is missing now."""
   table = table if table is not None else _load_table()
@@ -3265,6 +3381,7 @@ def normalize(tree, modname):
     ast.fix_missing_locations(tree)
     return 0, b
   a = inline_module_constants(tree, modname)
+  a += call_spelling(tree, modname)
   a += restore_function_names(tree, modname)
   a += collect_generators(tree, modname)
   a += inline_expression_helpers(tree, modname)
